@@ -131,6 +131,18 @@ func runC10(c *Ctx) {
 			c.obUnreach("startTLS", site, notOffered)
 			c.obUnreach("startTLS", site, `(*Client).hello(param0) != nil`)
 		}
+		// success is reported only when the upgrade succeeded
+		for _, a := range acceptingReturns(f) {
+			ok := false
+			for _, site := range s.Find(f, "call:(*Client).startTLS") {
+				if v, isV := site.(ssa.Value); isV {
+					if m, _ := c.factMatch(a, "^"+regexpQuote(describe(v))+" == nil$"); m {
+						ok = true
+					}
+				}
+			}
+			R.Ob(c.siteKey(a, "nil only after a successful startTLS"), c.P.InstrPos(a), ok, "initStartTLS returns nil on a path where startTLS may have failed: the caller continues on the plaintext connection")
+		}
 		// every return feasible under notOffered returns a non-nil error
 		fb := c.F.feasibleBlocks(f, HSet(notOffered, `(*Client).hello(param0) == nil`))
 		allInstrs(f, func(in ssa.Instruction) {
